@@ -38,8 +38,17 @@ def gen_case(rng):
         kind = rng.choice(["dict", "PUSO" if spin else "PUBO", "PUSOMatrix" if spin else "PUBOMatrix"])
         labels, terms, matrix = pure.gen_model(rng, kind, raw_dict_tricks=False, allow_empty=False, halves_p=0)
         big = {k: (rng.choice([-2, -1, 1, 2, 512, 512, -512, 400]), rng.choice([-1, 0, 1])) for k in terms}     # up to 2^62 each
+        tm = {k: c * 2 ** 53 + d for k, (c, d) in big.items()}
+        if not spin and rng.random() < 0.5:
+            # the same as FLOATS of very different magnitude, where exact bounds are representable: a boolean model without
+            # constant whose negative coefficients are all huge (c * 2^53) and whose positive ones are all small (d), or the
+            # other way round - each one-sided sum stays within one magnitude class
+            flip = rng.choice([1, -1])
+            big = {k: ((-flip * abs(cc), 0) if rng.random() < 0.5 else (0, flip * (abs(dd) or 1))) for k, (cc, dd) in big.items() if k}
+            if big:
+                tm = {k: float(c * 2 ** 53 + d) for k, (c, d) in big.items()}
         return {"op": "extrema2", "fn": "approximate_puso_extrema" if spin else "approximate_pubo_extrema", "spin": spin, "kind": kind,
-                "labels": labels, "terms": {k: c * 2 ** 53 + d for k, (c, d) in big.items()}, "limbs": {repr(k): v for k, v in big.items()}}
+                "labels": labels, "terms": tm, "limbs": {repr(k): v for k, v in big.items()}}
     fn = rng.choice(sorted(FNS))
     spin, quad = FNS[fn]
     kinds = pure.SPIN_KINDS if spin else pure.BOOL_KINDS
